@@ -1,15 +1,19 @@
 (* Properties/C03.v - accessors describe one consistent decomposition of the serialization.
    Stated for every record satisfying the executable structural invariant wf_b (Model/WF.v) and for
    both build configurations (dbg).  That reachable Urls satisfy wf_b (the reachability half, C02's L1/L2)
-   is section R below: proved for EVERY parse / join result (C03_parse_reachability; file scheme included) and
-   along the mutators whose invariant preservation C06 proves (C03_reachability_partial); the remaining mutators
-   are C03_reachability_full_statement (not proved; the correspondence run evaluates wf_b on every reached
-   record and lists the classes that leave it). *)
+   is section R below: proved for EVERY parse / join result (C03_parse_reachability; file scheme included), for
+   the records of the file-path constructors and along ALL 19 mutators outside a computable exclusion
+   (C03_reachability over reach03a, section R2; C03_accessors_reach is the property text's first two sentences
+   for every such record).  C03_reachability_full_statement (C02's Reachable: joins against ANY reached base,
+   the exclusions being exactly C02's known_step) is not proved: what separates it from C03_reachability is
+   listed in front of it.  Section V: the remaining "views agree" clauses. *)
 From Coq Require Import String.
-From RU Require Import Base.Prelude Model.HostT Model.UrlRecord Model.Parser Model.Setters Model.WF
+From RU Require Import Base.Prelude Base.Utf8 Model.HostT Model.UrlRecord Model.Parser Model.Setters Model.WF
   Proofs.ListN Proofs.C03_WF Proofs.C06_Suffix Proofs.C06_HostNone Proofs.C06_Host Proofs.C06_Segments Proofs.C06_Path
   Proofs.C06_Main Proofs.C02_Reach Proofs.C02_AuthParts Proofs.C02_AuthMain Proofs.C04_ParseTotal
-  Proofs.C03_ReachParts Proofs.C03_Reach Proofs.C03_ReachFile Proofs.C03_ReachHost Proofs.C03_ReachHist.
+  Proofs.C03_ReachParts Proofs.C03_Reach Proofs.C03_ReachFile Proofs.C03_ReachHost Proofs.C03_ReachHist
+  Model.FilePath Proofs.C06_Path Proofs.C06_Host Proofs.C05_Enc Proofs.C03_ReachAll Proofs.C03_Reachability
+  Proofs.C03_ReachAscii Proofs.C03_ReachEx Proofs.C03_Views Proofs.C03_PortInv Proofs.C03_PortParse Proofs.C03_AuthEnd Proofs.C03_ReachKnown.
 Open Scope string_scope.
 Open Scope N_scope.
 Open Scope list_scope.
@@ -181,9 +185,186 @@ Theorem C03_reachable_index : forall dbg hp hpo hd u p, HostWf hp hpo hd -> reac
 Proof. intros dbg hp hpo hd u p HW R. apply C03_index. exact (proj1 (reach03_wfh dbg hp hpo hd HW u R)). Qed.
 Print Assumptions C03_reachable_index.
 
-(* what is still missing for "every reachable Url" in the sense of C02 (Reachable: parse, join and all 19
-   mutators outside the known classes): the mutators that reach03 does not have (set_host(Some), the quirks
-   setters, path setters on authority-less records) and base_ok for reached bases *)
+(* ---------- R2. every reachable Url: all 19 mutators, the file-path constructors ---------- *)
+(* one call of any of the 19 mutators of C02's operation type (the nine Url setters, set_ip_host, a
+   path_segments_mut session, the nine quirks setters), successful or failing, with Rust-typed arguments
+   (op_args_ok: &str = scalar values, u16, IpAddr), on a record satisfying wfh = wf_b /\ host_text_ok, gives a
+   record satisfying wfh - outside the COMPUTABLE exclusion excl03 u o u' (Proofs/C03_ReachAll.v), a boolean on
+   the record before, the call and the record after:
+     host setters (set_host(Some), set_ip_host, quirks set_host / set_hostname):
+        has_marker u  [F-C03-5]  ||  has_authority u && hosti u' = None && port u <> None  [inside F-C02-4]
+     set_host(None):      has_host u && path_starts_with_2slash u                           [F-C02-2]
+     set_path p:          is_opaque u && p contains '?' or '#'                              [inside F-C02-3]
+     set_path, quirks set_pathname, path_segments_mut on an authority-less, non-opaque record:
+        path_starts_with_2slash u' <> (the marker is there)   [F-C02-8 / F-C03-5; exact: C06_frame_path_marker,
+        C06_frame_path_noauth_exact show the result is then never wf_b]
+     set_path, quirks set_pathname:  auth_end_b u = false - the text in front of the path of a special non-file
+        URL ends in '/' (an invariant of parsed records that wf_b does not carry: C06_auth_end_parse; no
+        reachable record is known to be in this class).
+   NOT excluded: F-C06-5 (set_host(None) on "a://h": the frame fails, the invariant holds), the credentials half
+   of F-C02-4, file URLs, trailing spaces (F-C02-3), F-C02-9.
+   IpDisp hd: the display of the IpAddr values set_ip_host can be given is non-empty and does not start with
+   ':' or '@' (HostWf speaks only about hosts the two host parsers return). *)
+Theorem C03_step : forall dbg hp hpo hd u o u', HostWf hp hpo hd -> IpDisp hd ->
+  wf_b u = true /\ host_text_ok u -> op_args_ok o -> excl03 u o u' = false ->
+  apply_op dbg hp hpo hd u o = Some u' -> wf_b u' = true /\ host_text_ok u'.
+Proof. intros dbg hp hpo hd u o u' HW HIP K Ha G H. exact (step03 dbg hp hpo hd HW u o u' HIP K Ha G H). Qed.
+Check C03_step : forall dbg hp hpo hd u o u', HostWf hp hpo hd -> IpDisp hd ->
+  wf_b u = true /\ host_text_ok u -> op_args_ok o -> excl03 u o u' = false ->
+  apply_op dbg hp hpo hd u o = Some u' -> wf_b u' = true /\ host_text_ok u'.
+Print Assumptions C03_step.
+
+(* every class of excl03 is needed in C03_step: for each, a record satisfying wf_b /\ host_text_ok, a call in the
+   class and a result that is NOT wf_b (host functions: every text is a domain).  The receivers of the first nine
+   are reachable (they are the known findings); the receiver of the last one, "http:///p" with an empty host, is
+   not known to be reachable - it shows that C03_step itself needs the auth_end_b exclusion. *)
+Theorem C03_excl03_exact :
+  excl_witness w_marker (OSetHost (Some (B "h"))) = true
+  /\ excl_witness w_marker (OSetIpHost (HIpv4 1)) = true
+  /\ excl_witness w_port (OSetHost (Some [])) = true
+  /\ excl_witness w_2slash (OSetHost None) = true
+  /\ excl_witness w_opaque (OSetPath (B "?")) = true
+  /\ excl_witness w_noauth (OSetPath (B "//x")) = true
+  /\ excl_witness w_noauth (OQPathname (B "//x")) = true
+  /\ excl_witness w_marker (OSetPath (B "/q")) = true
+  /\ excl_witness w_marker (OPathSegments [PClear]) = true
+  /\ excl_witness w_auth_end (OSetPath (B "x")) = true.
+Proof. exact excl03_witnesses. Qed.
+Print Assumptions C03_excl03_exact.
+
+(* reach03a dbg hp hpo hd (Proofs/C03_Reachability.v): parse_url without a base; parse_url against a reached
+   base that satisfies base_ok (C04: a special base is not cannot-be-a-base - true of every parse result, not
+   yet carried as an invariant); Url::from_file_path / from_directory_path of a byte string; and any sequence of
+   calls of the 19 mutators with known03 u o u' = negb (url_eqb u' u) && excl03 u o u' = false, i.e. the call
+   left the record as it was (every failing call does: C06_atomic) or is outside excl03. *)
+Definition C03_reachability_statement2 : Prop :=
+  forall dbg hp hpo hd, HostWf hp hpo hd -> IpDisp hd ->
+  forall u, reach03a dbg hp hpo hd u -> wf_b u = true /\ host_text_ok u.
+
+Theorem C03_reachability : C03_reachability_statement2.
+Proof. exact reach03a_wfh. Qed.
+Check C03_reachability : forall dbg hp hpo hd, HostWf hp hpo hd -> IpDisp hd ->
+  forall u, reach03a dbg hp hpo hd u -> wf_b u = true /\ host_text_ok u.
+Print Assumptions C03_reachability.
+
+(* the records of the two file-path constructors (C20 says which records they are) *)
+Theorem C03_file_constructors : forall p u, bytes p ->
+  from_file_path p = FOk u \/ from_directory_path p = FOk u -> (wf_b u = true /\ host_text_ok u) /\ base_ok u = true.
+Proof.
+  intros p u Hb [H|H].
+  - split; [exact (from_file_path_wfh p u Hb H) | exact (from_file_path_base_ok p u Hb H)].
+  - split; [exact (from_directory_path_wfh p u Hb H) | exact (from_directory_path_base_ok p u Hb H)].
+Qed.
+Print Assumptions C03_file_constructors.
+
+(* the serialization of every such record consists of bytes 0x20..0x7E (C05's alphabet invariant; HostOK / IpOK
+   of C05: the host display functions stay inside 0x21..0x7E), so it is ASCII: no slice splits a character *)
+Theorem C03_reach_ascii : forall dbg hp hpo hd u, C05_Parser.HostOK hp hpo hd -> C05_Setters.IpOK hd ->
+  reach03a dbg hp hpo hd u -> Forall ok_or_space (ser u) /\ ascii (ser u).
+Proof.
+  intros dbg hp hpo hd u HOK HIP R.
+  split; [exact (reach03a_alphabet dbg hp hpo hd HOK HIP u R) | exact (reach03a_ascii dbg hp hpo hd HOK HIP u R)].
+Qed.
+Check C03_reach_ascii : forall dbg hp hpo hd u, C05_Parser.HostOK hp hpo hd -> C05_Setters.IpOK hd ->
+  reach03a dbg hp hpo hd u -> Forall ok_or_space (ser u) /\ ascii (ser u).
+Print Assumptions C03_reach_ascii.
+
+(* the first two sentences of the property text for every reached record, in both build configurations
+   (dbg' of the accessors is independent of the dbg the history was run with): the accessors re-concatenate to
+   the serialization; every Position index is in bounds, indices are monotone in Position order, all range forms
+   succeed and consecutive ranges re-concatenate *)
+Theorem C03_accessors_reach : forall dbg dbg' hp hpo hd u, HostWf hp hpo hd -> IpDisp hd -> reach03a dbg hp hpo hd u ->
+  (exists sch un pw hs pth q f,
+    scheme u = Some sch /\ username dbg' u = Some un /\ password dbg' u = Some pw /\ host_str u = Some hs
+    /\ path u = Some pth /\ query dbg' u = Some q /\ fragment dbg' u = Some f
+    /\ ser u =
+       sch ++ (if has_authority_b u then s_css else [58])
+       ++ un ++ (match pw with Some p => 58 :: p | None => [] end)
+       ++ (if has_authority_b u && negb (username_end u =? host_start u) then [64] else [])
+       ++ piece u (host_start u) (host_end u)
+       ++ (match port u with Some p => 58 :: decimal p | None => [] end)
+       ++ (if negb (has_authority_b u) && (path_start u =? scheme_end u + 3) then [47; 46] else [])
+       ++ pth
+       ++ (match q with Some x => 63 :: x | None => [] end)
+       ++ (match f with Some x => 35 :: x | None => [] end))
+  /\ (forall p, exists i, position_index dbg' u p = Some i /\ i <= nlen (ser u))
+  /\ (forall p q i j, (pos_rank p <= pos_rank q)%nat ->
+        position_index dbg' u p = Some i -> position_index dbg' u q = Some j -> i <= j)
+  /\ (forall p q, (pos_rank p <= pos_rank q)%nat -> exists s, index_range dbg' u p q = Some s)
+  /\ (forall p, exists s t, index_to dbg' u p = Some s /\ index_from dbg' u p = Some t /\ s ++ t = ser u)
+  /\ index_range dbg' u BeforeScheme AfterFragment = Some (ser u).
+Proof.
+  intros dbg dbg' hp hpo hd u HW HIP R. destruct (reach03a_wfh dbg hp hpo hd HW HIP u R) as [W _].
+  split; [|split; [|split; [|split; [|split]]]].
+  - destruct (C03_concat dbg' u W) as (sch & un & pw & hs & pth & q & f & A1 & A2 & A3 & A4 & A5 & A6 & A7 & A8 & _).
+    exists sch, un, pw, hs, pth, q, f. repeat split; assumption.
+  - intros p. exact (C03_index dbg' u p W).
+  - intros p q i j. exact (C03_monotone dbg' u p q i j W).
+  - exact (proj1 (C03_slices dbg' u W)).
+  - exact (proj1 (proj2 (C03_slices dbg' u W))).
+  - exact (proj2 (proj2 (proj2 (C03_slices dbg' u W)))).
+Qed.
+Print Assumptions C03_accessors_reach.
+
+(* ---------- R3. histories whose exclusions are only the known findings ---------- *)
+(* auth_end_ok, the member of excl03 that is not a known finding, follows from an invariant of histories, HE u
+   (Proofs/C03_AuthEnd.v): with a special scheme a host text does not end in '/', and a special scheme other than
+   file has a host.  HE is preserved by every call of the 19 mutators outside excl03 - NoEmpty hp: Host::parse never
+   returns the empty host (it fails with EmptyHost); IpWf hd: the display of an IpAddr is a host text (non-empty,
+   not starting with ':' / '@', not ending in '/') *)
+Theorem C03_auth_end_step : forall dbg hp hpo hd u o u', HostWf hp hpo hd -> NoEmpty hp -> IpWf hd ->
+  wf_b u = true /\ host_text_ok u -> op_args_ok o -> excl03 u o u' = false ->
+  apply_op dbg hp hpo hd u o = Some u' -> HE u -> HE u' /\ auth_end_ok u.
+Proof.
+  intros dbg hp hpo hd u o u' HW HNE HIP K Ha G H K0.
+  split; [exact (he_step dbg hp hpo hd HW HNE HIP u o u' K Ha G H K0) | exact (he_auth_end u K K0)].
+Qed.
+Check C03_auth_end_step : forall dbg hp hpo hd u o u', HostWf hp hpo hd -> NoEmpty hp -> IpWf hd ->
+  wf_b u = true /\ host_text_ok u -> op_args_ok o -> excl03 u o u' = false ->
+  apply_op dbg hp hpo hd u o = Some u' -> HE u -> HE u' /\ auth_end_ok u.
+Print Assumptions C03_auth_end_step.
+
+(* reach03k dbg hp hpo hd (Proofs/C03_ReachKnown.v): Url::parse (no base) of a text (&str) with a scheme other than
+   "file" - C02's four closed-form classes - or Url::from_file_path / from_directory_path of a byte string,
+   followed by ANY sequence of calls of the 19 mutators (successful or failing) with
+   known03k u o u' = negb (url_eqb u' u) && excl03k u o u' = false, where excl03k is excl03 WITHOUT the auth_end_b
+   member: the exclusions are exactly the known classes F-C03-5, F-C02-2, F-C02-8, the '?' / '#' half of F-C02-3
+   and the empty-host-with-port half of F-C02-4 (all witnessed: C03_excl03_exact).  Every such record satisfies
+   wf_b /\ host_text_ok, auth_end_ok, and never stores the default port of its scheme.  Hypotheses on the host
+   functions: HostRT and host_above of C02, NoEmpty, IpWf (all met by the example instance).
+   Not covered: joins and file: texts (the parser is known there only through wf_b: C03_reachability). *)
+Theorem C03_reachability_known : forall dbg hp hpo hd,
+  HostRT hp hpo hd -> host_above hp hpo hd -> NoEmpty hp -> IpWf hd ->
+  forall u, reach03k dbg hp hpo hd u ->
+  (wf_b u = true /\ host_text_ok u) /\ auth_end_ok u /\ PN u /\ reach03a dbg hp hpo hd u.
+Proof.
+  intros dbg hp hpo hd HRT HAb HNE HIP u R.
+  destruct (reach03k_inv dbg hp hpo hd HRT HAb HNE HIP u R) as (K & He & Pn & Rn).
+  split; [exact K|]. split; [exact (he_auth_end u K He)|]. split; [exact Pn | exact (reach03n_sub dbg hp hpo hd u Rn)].
+Qed.
+Check C03_reachability_known : forall dbg hp hpo hd,
+  HostRT hp hpo hd -> host_above hp hpo hd -> NoEmpty hp -> IpWf hd ->
+  forall u, reach03k dbg hp hpo hd u ->
+  (wf_b u = true /\ host_text_ok u) /\ auth_end_ok u /\ PN u /\ reach03a dbg hp hpo hd u.
+Print Assumptions C03_reachability_known.
+
+(* the hypotheses are met (Host::parse fails on the empty text, Host::parse_opaque returns the empty host), and a
+   history through the special-scheme path setter: parse "http://h:81/p?q", set_path "x/../y", quirks set_host
+   "g:443", set_scheme "https" -> "https://g/y?q" (443 became the default and is dropped) *)
+Example C03_reachability_known_inhabited :
+  ((HostRT ex_hp3 ex_hp ex_hd2 /\ host_above ex_hp3 ex_hp ex_hd2) /\ NoEmpty ex_hp3 /\ IpWf ex_hd2)
+  /\ reach03k_example_stmt.
+Proof. split; [exact ex3_hyps | exact reach03k_example]. Qed.
+
+(* what separates C03_reachability from "every reachable Url" in the sense of C02 (Reachable: parse, join
+   against ANY reached base, all 19 mutators outside C02's known_step):
+   (1) base_ok of a reached base is a premise of reach03a's join (special => not cannot-be-a-base);
+   (2) auth_end_b u is part of excl03 for set_path / quirks set_pathname;
+   (3) the host half of excl03 is stated on the result (hosti u' = None) while Known_F_C02_4 is stated on the
+       argument (an empty text): for abstract host functions they differ;
+   (4) for path_segments_mut sessions on an authority-less record excl03 has path_bad, known_step only the marker.
+   (2) is discharged for histories without joins and file: texts (C03_reachability_known); (1) and the parser
+   half of (2) for join / file: results need an inversion of Parser::parse_url beyond wf_b. *)
 Definition C03_reachability_full_statement : Prop :=
   forall dbg hp hpo hd, HostWf hp hpo hd -> forall u, Reachable dbg hp hpo hd u -> wf_b u = true.
 
@@ -214,3 +395,179 @@ Example C03_wf_inhabited :
               4 8 11 12 HI_Domain (Some 81) 15 (Some 17) (Some 19)) = true
   /\ wf_b (mkUrl [97;58;47;46;47;47;120] 1 2 2 2 HI_None None 4 None None) = true.
 Proof. vm_compute. split; reflexivity. Qed.
+
+(* non-vacuity of R2: host functions meeting HostWf and IpDisp (texts over a host alphabet are domains; IP values
+   are printed), and two histories: parse "a://h:80/p?q#f", set_host(Some "y"), quirks set_host "x:81",
+   path_segments_mut push "z", set_ip_host(1.2.3.4), set_host(None) twice -> "a:/p/z?q#f";
+   from_file_path "/a b/c", set_host(Some "h"), quirks set_pathname "d" -> "file://h/d" *)
+Example C03_reachability_inhabited :
+  HostWf ex_hp ex_hp ex_hd2 /\ IpDisp ex_hd2 /\ reach03a_example_stmt.
+Proof. split; [exact ex2_host_wf|]. split; [exact ex2_ip_disp | exact reach03a_example]. Qed.
+
+(* ---------- V. the other overlapping views (Proofs/C03_Views.v) ---------- *)
+(* authority(): the slice between the Positions BeforeUsername and AfterPort, "" without an authority *)
+Theorem C03_authority : forall dbg u, wf_b u = true ->
+  authority dbg u = Some (if has_authority_b u then piece u (scheme_end u + 3) (path_start u) else [])
+  /\ (has_authority_b u = true -> index_range dbg u BeforeUsername AfterPort = authority dbg u).
+Proof. exact authority_view. Qed.
+Check C03_authority : forall dbg u, wf_b u = true ->
+  authority dbg u = Some (if has_authority_b u then piece u (scheme_end u + 3) (path_start u) else [])
+  /\ (has_authority_b u = true -> index_range dbg u BeforeUsername AfterPort = authority dbg u).
+Print Assumptions C03_authority.
+
+(* cannot_be_a_base() vs path_segments(): path_segments() is None for every cannot-be-a-base record, and for a
+   record that is not cannot-be-a-base exactly when its path is empty, which needs an authority - the class of
+   F-C03-4 ("a://h"), inhabited *)
+Theorem C03_cbb_vs_segments : forall u, wf_b u = true ->
+  exists c sg p, cannot_be_a_base u = Some c /\ path_segments u = Some sg /\ path u = Some p
+    /\ (c = true -> sg = None)
+    /\ (c = false -> (sg = None <-> p = []))
+    /\ (c = false -> p = [] -> has_authority_b u = true).
+Proof. exact cbb_vs_segments. Qed.
+Check C03_cbb_vs_segments : forall u, wf_b u = true ->
+  exists c sg p, cannot_be_a_base u = Some c /\ path_segments u = Some sg /\ path u = Some p
+    /\ (c = true -> sg = None)
+    /\ (c = false -> (sg = None <-> p = []))
+    /\ (c = false -> p = [] -> has_authority_b u = true).
+Print Assumptions C03_cbb_vs_segments.
+
+Example C03_F_C03_4_witness :
+  let u := mkUrl [97; 58; 47; 47; 104] 1 4 4 5 HI_Domain None 5 None None in
+  wf_b u = true /\ cannot_be_a_base u = Some false /\ path_segments u = Some None /\ path u = Some [].
+Proof. exact cbb_vs_segments_F_C03_4. Qed.
+
+(* port_or_known_default() and socket_addrs() (the latter is a transcription of lib.rs:1332-1358 in
+   Proofs/C03_Views.v, not part of the extracted model): without a host "No host name"; with an IP host exactly
+   one address, whose port is the stored port, else the scheme default, else the caller's fallback, and
+   "No port number" when all three are absent; a domain goes to the resolver with that port *)
+Theorem C03_port_or_known_default : forall u, wf_b u = true ->
+  exists sch, scheme u = Some sch
+    /\ port_or_known_default u = Some (match port u with Some p => Some p | None => default_port sch end).
+Proof. exact port_or_known_default_view. Qed.
+Print Assumptions C03_port_or_known_default.
+
+Theorem C03_socket_addrs : forall u fallback, wf_b u = true ->
+  exists sch, scheme u = Some sch
+    /\ (has_host u = false -> socket_addrs u fallback = Some SockNoHost)
+    /\ (forall a, hosti u = HI_Ipv4 a ->
+          socket_addrs u fallback = Some (match effective_port u sch fallback with
+                                          | Some p => SockAddrs [(HIpv4 a, p)] | None => SockNoPort end))
+    /\ (forall ps, hosti u = HI_Ipv6 ps ->
+          socket_addrs u fallback = Some (match effective_port u sch fallback with
+                                          | Some p => SockAddrs [(HIpv6 ps, p)] | None => SockNoPort end))
+    /\ (hosti u = HI_Domain -> exists d, host_str u = Some (Some d)
+          /\ socket_addrs u fallback = Some (match effective_port u sch fallback with
+                                             | Some p => SockResolve d p | None => SockNoPort end)).
+Proof. exact socket_addrs_view. Qed.
+Print Assumptions C03_socket_addrs.
+
+(* port() vs port_or_known_default(): "a scheme-default port is never stored".  PN u (Proofs/C03_PortInv.v): the
+   stored port is not the default port of the stored scheme.  wf_b does not imply it (a record "http://h:80/"
+   with port = Some 80 is wf_b); it is an invariant of histories: every call of the 19 mutators covered by
+   C03_step preserves it (set_port, quirks set_port and quirks set_host store a normalised port, set_scheme
+   re-normalises the stored one, every other mutator keeps scheme and port or clears the port) *)
+Theorem C03_port_step : forall dbg hp hpo hd u o u', HostWf hp hpo hd -> IpDisp hd ->
+  wf_b u = true /\ host_text_ok u -> op_args_ok o -> excl03 u o u' = false ->
+  apply_op dbg hp hpo hd u o = Some u' -> PN u -> PN u'.
+Proof. intros dbg hp hpo hd u o u' HW HIP K Ha G H. exact (pn_step dbg hp hpo hd HW u o u' HIP K Ha G H). Qed.
+Check C03_port_step : forall dbg hp hpo hd u o u', HostWf hp hpo hd -> IpDisp hd ->
+  wf_b u = true /\ host_text_ok u -> op_args_ok o -> excl03 u o u' = false ->
+  apply_op dbg hp hpo hd u o = Some u' -> PN u -> PN u'.
+Print Assumptions C03_port_step.
+
+(* for every reached record, RELATIVE to ParsePN dbg hp hpo hd: "every record Parser::parse_url returns (from a
+   base that satisfies PN) satisfies PN" - true by inspection (parse_port normalises against the scheme being
+   parsed, parse_relative copies the port together with the scheme) but NOT proved: the full statement is *)
+Definition C03_port_never_default_statement : Prop :=
+  forall dbg hp hpo hd, HostWf hp hpo hd -> IpDisp hd -> forall u, reach03a dbg hp hpo hd u -> PN u.
+
+Theorem C03_port_never_default_partial : forall dbg hp hpo hd, HostWf hp hpo hd -> IpDisp hd -> ParsePN dbg hp hpo hd ->
+  forall u, reach03a dbg hp hpo hd u ->
+  PN u /\ forall sch, scheme u = Some sch -> forall p, port_or_known_default u = Some (Some p) ->
+            port u = Some p \/ (port u = None /\ default_port sch = Some p).
+Proof.
+  intros dbg hp hpo hd HW HIP HP u R. split; [exact (reach03a_pn dbg hp hpo hd HW HIP HP u R)|].
+  intros sch Hs p Hp. unfold port_or_known_default in Hp. destruct (port u) as [q|].
+  - left. inversion Hp. reflexivity.
+  - right. rewrite Hs in Hp. cbn in Hp. inversion Hp. split; reflexivity.
+Qed.
+Print Assumptions C03_port_never_default_partial.
+
+(* without a hypothesis on the parser: reach03n dbg hp hpo hd (Proofs/C03_PortParse.v) = the part of reach03a whose
+   histories start at Url::parse (no base) of a text with a scheme other than "file" (C02's four closed-form
+   classes; the input is a &str) or at a file-path constructor, followed by any sequence of mutator calls
+   outside known03.  Hypotheses HostRT and host_above of C02 (they imply HostWf).  Not covered: joins, file:
+   texts - for these ParsePN above is the missing piece. *)
+Theorem C03_port_never_default_nonfile : forall dbg hp hpo hd, HostRT hp hpo hd -> host_above hp hpo hd -> IpDisp hd ->
+  forall u, reach03n dbg hp hpo hd u -> reach03a dbg hp hpo hd u /\ PN u.
+Proof.
+  intros dbg hp hpo hd HRT HAb HIP u R.
+  split; [exact (reach03n_sub dbg hp hpo hd u R) | exact (reach03n_pn dbg hp hpo hd HRT HAb HIP u R)].
+Qed.
+Check C03_port_never_default_nonfile : forall dbg hp hpo hd, HostRT hp hpo hd -> host_above hp hpo hd -> IpDisp hd ->
+  forall u, reach03n dbg hp hpo hd u -> reach03a dbg hp hpo hd u /\ PN u.
+Print Assumptions C03_port_never_default_nonfile.
+
+Example C03_port_never_default_nonfile_inhabited :
+  (HostRT ex_hp ex_hp ex_hd2 /\ host_above ex_hp ex_hp ex_hd2) /\ IpDisp ex_hd2
+  /\ nonfile_input (B "http://h:81/") = true.
+Proof. split; [exact ex2_host_RT|]. split; [exact ex2_ip_disp | vm_compute; reflexivity]. Qed.
+
+(* non-vacuity: "http://h:81/" parsed with the example host functions satisfies PN; set_port(Some 80) on it is a
+   step outside the exclusion and clears the port *)
+Example C03_port_step_inhabited :
+  match parse_url true ex_hp ex_hp ex_hd2 None None (B "http://h:81/") with
+  | POk u => opt_eqb (port u) (Some 81)
+             && match apply_op true ex_hp ex_hp ex_hd2 u (OSetPort (Some 80)) with
+                | Some u' => negb (excl03 u (OSetPort (Some 80)) u') && opt_eqb (port u') None
+                             && list_eqb (ser u') (B "http://h/")
+                | None => false
+                end
+  | _ => false
+  end = true.
+Proof. vm_compute. reflexivity. Qed.
+
+(* Eq / Ord / Hash / Display: transcriptions of lib.rs:2768-2864 (every impl delegates to self.serialization),
+   so these clauses are definitional; the content is in C03_eq_records: for fixpoints of re-parsing (C02's
+   property) equal serializations mean equal RECORDS - all ten fields - so every accessor agrees *)
+Theorem C03_eq_ord_hash : forall u v,
+  (url_eq u v = true <-> ser u = ser v)
+  /\ (url_cmp u v = Eq <-> ser u = ser v)
+  /\ (url_eq u v = true -> forall H (h : list N -> H), url_hash h u = url_hash h v)
+  /\ url_display u = ser u.
+Proof. exact eq_ord_hash_by_serialization. Qed.
+Print Assumptions C03_eq_ord_hash.
+
+Theorem C03_eq_records : forall dbg hp hpo hd u v,
+  Fixpoint_of_reparse dbg hp hpo hd u -> Fixpoint_of_reparse dbg hp hpo hd v -> url_eq u v = true -> u = v.
+Proof. exact eq_records. Qed.
+Check C03_eq_records : forall dbg hp hpo hd u v,
+  Fixpoint_of_reparse dbg hp hpo hd u -> Fixpoint_of_reparse dbg hp hpo hd v -> url_eq u v = true -> u = v.
+Print Assumptions C03_eq_records.
+
+(* String conversion / FromStr / TryFrom<&str> and the serde string form round-trip for fixpoints of re-parsing
+   (by definition of the fixpoint property: C02's theorems say which records have it); serialize_internal /
+   deserialize_internal round-trip for every record in release builds and, in debug builds (check_invariants
+   re-parses), for well-formed fixpoints *)
+Theorem C03_round_trips : forall dbg hp hpo hd u, Fixpoint_of_reparse dbg hp hpo hd u ->
+  url_from_str dbg hp hpo hd (utf8_lossy (url_display u)) = POk u
+  /\ serde_deserialize dbg hp hpo hd (serde_serialize u) = POk u
+  /\ (wf_b u = true -> deserialize_internal dbg hp hpo hd (serialize_internal u) = Some u).
+Proof.
+  intros dbg hp hpo hd u F. destruct (string_round_trips dbg hp hpo hd u F) as [A B0].
+  split; [exact A|]. split; [exact B0|]. intros W. exact (internal_round_trip dbg hp hpo hd u W F).
+Qed.
+Print Assumptions C03_round_trips.
+
+Theorem C03_internal_round_trip_release : forall hp hpo hd u,
+  deserialize_internal false hp hpo hd (serialize_internal u) = Some u.
+Proof. intros hp hpo hd u. exact (internal_round_trip_release false hp hpo hd u eq_refl). Qed.
+Print Assumptions C03_internal_round_trip_release.
+
+(* the fixpoint hypothesis is inhabited: "a://h/p?q#f" with the toy host functions of C02_Reach.v *)
+Example C03_round_trips_inhabited :
+  match toy_parse "a://h/p?q#f" with
+  | POk u => pres_eqb (reparse true toy_hp toy_hp toy_hd u) u && wf_b u
+  | _ => false
+  end = true.
+Proof. vm_compute. reflexivity. Qed.
